@@ -11,3 +11,11 @@ Lemma c12_fp_seqgen_rec : seqgen_rec_body = seqgen_rec_body_ref.
 Proof. vm_compute. reflexivity. Qed.
 Lemma c12_fp_consumer : best_move_multi_body = best_move_multi_body_ref.
 Proof. vm_compute. reflexivity. Qed.
+
+(* start-solution construction (solver_parallel.go): the copies of the empty
+   solution - each draws a seed from the shared solution's random source - are
+   taken by the launching loop in index order, never inside the goroutines *)
+Lemma c12_fp_wrapper : solver_parallel_wrapper_body = solver_parallel_wrapper_body_ref.
+Proof. vm_compute. reflexivity. Qed.
+Lemma c12_no_copy_in_wrapper_goroutine : goroutine_calls "Copy" solver_parallel_wrapper_body = false.
+Proof. vm_compute. reflexivity. Qed.
